@@ -234,10 +234,10 @@ func (e *symEval) run(stmts []ast.Stmt) {
 			}
 		case *ast.IfStmt:
 			// if h != nil { return h, true }
-			be, ok := ast.Unparen(s.Cond).(*ast.BinaryExpr)
-			isHit := ok && be.Op == token.NEQ && e.f.Norm(be.Y, nil) == "nil" && s.Else == nil && s.Init == nil && len(s.Body.List) == 1
+			hx, ok := nilCompare(e.f, s.Cond, token.NEQ)
+			isHit := ok && s.Else == nil && s.Init == nil && len(s.Body.List) == 1
 			if isHit {
-				if id, ok := ast.Unparen(be.X).(*ast.Ident); !ok || id.Name != e.hvar {
+				if id, ok := ast.Unparen(hx).(*ast.Ident); !ok || id.Name != e.hvar {
 					isHit = false
 				}
 			}
